@@ -432,4 +432,31 @@ def Resolves (H : Bytes → Bytes) (get : Bytes → Option Bytes) (t : Node) (pr
 def resolvesB (H : Bytes → Bytes) (get : Bytes → Option Bytes) (t : Node) (pre : List Nib) : Bool :=
   (refs t pre).all (fun r => get (r.key H) == some (r.encode H))
 
+/-! ### rounds that are executed and saved more than once at the same version (competing blocks)
+
+Every execution of a round ends with `SaveChanges` + `RecordDeadNodes(deletes, version)`; the executions of one round
+share the version, the chain continues from the LAST one, the earlier ones are abandoned. -/
+
+/-- `RecordDeadNodes` as the code does it: the record of the version is overwritten (`PutCF`) -/
+def recOverwrite (d : DeadRecs) (v : Nat) (ks : List Bytes) : DeadRecs := Map.put d v ks
+
+/-- a wrong policy: nothing is written when the new dead set is empty (the record of an earlier execution survives) -/
+def recSkipEmpty (d : DeadRecs) (v : Nat) (ks : List Bytes) : DeadRecs := if ks.isEmpty then d else Map.put d v ks
+
+/-- a wrong policy: the new dead set is merged into the record of the version -/
+def recMerge (d : DeadRecs) (v : Nat) (ks : List Bytes) : DeadRecs := Map.put d v ((Map.get d v).getD [] ++ ks)
+
+/-- the record map after executions `0..k` of one round at version `v` (`D j` = dead keys of execution `j`) -/
+def recExecs (rec : DeadRecs → Nat → List Bytes → DeadRecs) (v : Nat) (D : Nat → List Bytes) : Nat → DeadRecs → DeadRecs
+  | 0, d => rec d v (D 0)
+  | k + 1, d => rec (recExecs rec v D k d) v (D (k + 1))
+
+/-- the record map after rounds `1..R`; round `i` runs at version `ver i` and is executed `n i + 1` times -/
+def recRounds (rec : DeadRecs → Nat → List Bytes → DeadRecs) (ver n : Nat → Nat) (D : Nat → Nat → List Bytes) : Nat → DeadRecs
+  | 0 => []
+  | R + 1 => recExecs rec (ver (R + 1)) (D (R + 1)) (n (R + 1)) (recRounds rec ver n D R)
+
+theorem apply_putRec_overwrite (s : PStore) (v : Nat) (ks : List Bytes) :
+    (s.apply (.putRec v ks)).dead = recOverwrite s.dead v ks := rfl
+
 end Verif.MptStore
